@@ -381,7 +381,7 @@ class CallMachine(Machine):
     def step_arm64(self, line):
         X = lambda tok: self.reg_index(tok)
         two64 = 1 << 64
-        if not line.startswith(("movz ", "movk ")):
+        if not line.startswith(("movz ", "movk ", "movn ")):
             self.lanes = {}               # lanes are only remembered across an uninterrupted movz/movk sequence
         m = re.fullmatch(r"(sub|add) sp, sp, #(\S+)", line)
         if m:
@@ -409,6 +409,13 @@ class CallMachine(Machine):
             self.lanes = getattr(self, "lanes", {})
             self.lanes[m.group(1)] = [v, z3.IntVal(0), z3.IntVal(0), z3.IntVal(0)]
             return self.set(X(m.group(1)), v)
+        m = re.fullmatch(r"movn (\S+), #(\S+)", line)
+        if m:
+            # MOVN Xd, #imm16 (shift 0): Xd = NOT(imm16), i.e. lane 0 = 0xFFFF - imm16 and the other three lanes all ones
+            v = self.int_operand(m.group(2), line, 0, 1 << 16, radix_prefix="0x" if m.group(2).startswith("0x") else "")
+            self.lanes = getattr(self, "lanes", {})
+            self.lanes[m.group(1)] = [0xFFFF - v, z3.IntVal(0xFFFF), z3.IntVal(0xFFFF), z3.IntVal(0xFFFF)]
+            return self.set(X(m.group(1)), two64 - 1 - v)
         m = re.fullmatch(r"movk (\S+), #(\S+), lsl #(\d+)", line)
         if m:
             v = self.int_operand(m.group(2), line, 0, 1 << 16, radix_prefix="0x" if m.group(2).startswith("0x") else "")
